@@ -9,6 +9,7 @@ import Drivers.Common
   kind `rel`   → `io=…|it=…|pa=…|pt=…|ca=…|dm=…|pp=…|sf=…|st=…|ss=…`
        `like`  → `lk=…`
        `known` → `xf=…|vf=…|zf=…`
+       `exc`   → `io=…|pa=…|ca=…`  (graph contains Exception = 1, RuntimeException = 3, Throwable = 0)
   A table is rows joined by `.`, one character per cell: `1`/`0`/`F` (fuel)/`E` (error) for subtype tests,
   the index of the class whose method ran or `-` for calls.
 
@@ -59,6 +60,11 @@ def typeNames (G : Graph) : List Name := G.classes.map (·.name) ++ G.ifaces.map
 
 def relTable (G : Graph) (k : Kind) : String :=
   table (G.classes.map fun d => (typeNames G).map fun t => showR (isInstanceOf G k d t))
+
+/-- rows only for the user classes (names ≥ 10); the std classes Exception (1), RuntimeException (3) and the
+interface Throwable (0) are part of the graph and of the type list -/
+def relTableUser (G : Graph) (k : Kind) : String :=
+  table ((G.classes.filter (fun d => d.name ≥ 10)).map fun d => (typeNames G).map fun t => showR (isInstanceOf G k d t))
 
 def idxs (G : Graph) : List Nat := List.range G.classes.length
 
@@ -144,6 +150,7 @@ def handle (line : String) : String :=
       if kind == "rel" then
         s!"io={relTable G .op}|it={relTable G .op}|pa={relTable G .param}|pt={relTable G .this}|ca={relTable G .thrown}|dm={dmTable G}|pp={ppTable G}|sf={sfTable G}|st={stTable G}|ss={ssTable G}"
       else if kind == "like" then s!"lk={likeTable G}"
+      else if kind == "exc" then s!"io={relTableUser G .op}|pa={relTableUser G .param}|ca={relTableUser G .thrown}"
       else if kind == "known" then s!"xf={xfTable G}|vf={vfTable G}|zf={zfTable G}"
       else "bad-kind"
   | _ => "bad-op"
